@@ -242,6 +242,11 @@ class ArithImposed(Contract):
                             modes = MODES if tier == 'thorough' and x[1] <= 4 and y[1] <= 4 else [MODES[k % len(MODES)]]
                             for rule, mode in modes:
                                 yield dict(op=op, x=list(x), y=list(y), policy=policy, target=None, method=method, rule=rule, mode=mode)
+                            if method == 'raw' and policy == 'same' and (i + j) % 3 == 0:
+                                # a class-wide Config.template with OTHER modes is installed while the operation runs: the result
+                                # still carries the first operand's configuration
+                                rule, mode = MODES[(k + 2) % len(MODES)]
+                                yield dict(op=op, x=list(x), y=list(y), policy=policy, target=None, method=method, rule=rule, mode=mode, cfg_template=True)
                             if method == 'repr' and (x[2] <= 0 or y[2] <= 0) and policy != 'largest':
                                 rule, mode = MODES[(k + 1) % len(MODES)]
                                 yield dict(op=op, x=list(x), y=list(y), policy=policy, target=None, method=method, rule=rule, mode=mode, vint=True)
@@ -300,7 +305,12 @@ class ArithImposed(Contract):
         y = make_fxp(P, sy, wy, fy, codes=inp['cy'], shape=(), cfg=dict(other), status={'inaccuracy': inp['iy']}, vdtype=int if (cfg.get('vint') and fy <= 0) else float)
         bx, by = dict(x.__dict__), dict(y.__dict__)
         vx0, vy0 = list(elems(x.val)), list(elems(y.val))
-        z = apply_op(cfg['op'], x, y, 'np' if (tgt and tgt[0].startswith('array_')) else 'op', P)
+        if cfg.get('cfg_template'):
+            P.Config.template = P.Config(**other)
+        try:
+            z = apply_op(cfg['op'], x, y, 'np' if (tgt and tgt[0].startswith('array_')) else 'op', P)
+        finally:
+            P.Config.template = None
         unchanged = all(x.__dict__[k] is bx[k] for k in bx) and all(y.__dict__[k] is by[k] for k in by) \
             and same_elems(elems(x.val), vx0) and same_elems(elems(y.val), vy0)
         sep = (z is not x and z is not y and z.config is not x.config and z.config is not y.config and z.status is not x.status
@@ -449,7 +459,7 @@ class ArithWide(ArithOptimal):
     primary = ['C19']
 
     def configs(self, tier):
-        words = (8, 32, 53, 60, 63, 64, 70) if tier == 'quick' else (2, 8, 31, 32, 33, 52, 53, 54, 60, 62, 63, 64, 65, 70)
+        words = (8, 32, 33, 53, 60, 63, 64, 70) if tier == 'quick' else (2, 8, 31, 32, 33, 52, 53, 54, 60, 62, 63, 64, 65, 70)
         fm = []
         for s in (True, False):
             for n in words:
@@ -472,6 +482,9 @@ class ArithWide(ArithOptimal):
                     yield dict(op=op, x=list(x), y=list(y), method='raw', shx=[], shy=[])
                     if k % 4 == 0:
                         yield dict(op=op, x=list(x), y=list(y), method='raw', shx=[], shy=[], route=('func', 'np')[(k // 4) % 2])
+                    if k % 21 == 0:
+                        # two-element arrays (the per-element Python-int conversion of object arrays)
+                        yield dict(op=op, x=list(x), y=list(y), method='raw', shx=[2], shy=[2])
                     if x[1] >= 64 and k % 5 == 0:
                         # the wide operand is an ELEMENT read from a wide array (x_arr[0]): it must still be Python-int backed
                         yield dict(op=op, x=list(x), y=list(y), method='raw', shx=[], shy=[], from_item=True)
